@@ -55,54 +55,62 @@ def crc_bz(data):
 
 
 # --------------------------------------------------------------------- driver
-class Driver:
-    def __init__(self, path):
-        self.p = subprocess.Popen([path], stdin=subprocess.PIPE,
-                                  stdout=subprocess.PIPE)
+# The driver answers one line per request but only flushes at exit, so it is
+# used in batch mode: a batch of request lines in, the same number of reply
+# lines out.  Batches run in parallel in fresh driver processes.
+DRV = None
+NTHREADS = 8
 
-    def ask(self, line):
-        self.p.stdin.write((line + '\n').encode())
-        self.p.stdin.flush()
-        r = self.p.stdout.readline()
-        if not r:
-            raise RuntimeError('driver died on: ' + line[:80])
-        return r.decode().rstrip('\n')
 
-    def close(self):
-        try:
-            self.p.stdin.close()
-            self.p.wait(timeout=10)
-        except Exception:
-            self.p.kill()
+def ask_batch(lines):
+    if not lines:
+        return []
+    r = subprocess.run([DRV], input=('\n'.join(lines) + '\n').encode(),
+                       stdout=subprocess.PIPE, timeout=3600)
+    out = r.stdout.decode().split('\n')
+    if out and out[-1] == '':
+        out.pop()
+    if len(out) != len(lines):
+        raise RuntimeError('driver returned %d replies to %d requests (rc %s); first request %s'
+                           % (len(out), len(lines), r.returncode, lines[0][:80]))
+    return out
+
+
+def ask_all(lines, per_batch=40, max_chars=1 << 20):
+    """Replies to `lines`, in order; work split into small batches."""
+    batches, cur, size = [], [], 0
+    for i, l in enumerate(lines):
+        cur.append(i)
+        size += len(l)
+        if len(cur) >= per_batch or size >= max_chars:
+            batches.append(cur)
+            cur, size = [], 0
+    if cur:
+        batches.append(cur)
+    res = [None] * len(lines)
+
+    def run(idx):
+        for i, r in zip(idx, ask_batch([lines[i] for i in idx])):
+            res[i] = r
+    with cf.ThreadPoolExecutor(max_workers=NTHREADS) as ex:
+        list(ex.map(run, batches))
+    return res
 
 
 def find_driver():
+    global DRV
     cands = [os.environ.get('LBZDRV'), os.path.join(BIN, 'lbzdrv'),
              os.path.join(BIN, 'lbzdrv-spec')]
     for c in cands:
         if c and os.path.exists(c):
             try:
-                d = Driver(c)
-                ok = d.ask('crc32 -') == '0'
-                d.close()
-                if ok:
+                DRV = c
+                if ask_batch(['crc32 -', 'decodesum -']) == ['0', 'err empty']:
                     return c
             except Exception:
                 pass
+    DRV = None
     return None
-
-
-_tls = threading.local()
-_all_drivers = []
-DRV = None
-
-
-def drv():
-    d = getattr(_tls, 'd', None)
-    if d is None:
-        d = _tls.d = Driver(DRV)
-        _all_drivers.append(d)
-    return d
 
 
 def hx(b):
@@ -154,53 +162,54 @@ class Stats:
                 setattr(self, k, getattr(self, k) + v)
 
 
-def compare(st, label, data, expect=None, save=None):
-    """expect: None | 'ok' | 'err' — what BOTH sides must say (generated cases)."""
-    r = drv().ask('decodesum ' + hx(data))
-    ref = ref_decode(data)
-    with st.lock:
+def compare_all(st, jobs, per_batch=40):
+    """jobs: list of (label, data[, expect]); expect: None | 'ok' | 'err' = what
+    BOTH sides must say (generated cases)."""
+    jobs = [(j[0], j[1], j[2] if len(j) > 2 else None) for j in jobs]
+    replies = ask_all(['decodesum ' + hx(d) for (_, d, _) in jobs], per_batch)
+    with cf.ThreadPoolExecutor(max_workers=NTHREADS) as ex:
+        refs = list(ex.map(lambda j: ref_decode(j[1]), jobs))
+    second = []
+    for k, ((label, data, expect), r, ref) in enumerate(zip(jobs, replies, refs)):
         st.n += 1
-    problem = None
-    if r.startswith('ok '):
-        _, size, crc = r.split()
-        if ref[0] != 'ok':
-            problem = 'Spec accepts (%s bytes) but libbz2 rejects: %s' % (size, ref[1])
-        elif int(size) != len(ref[1]) or int(crc) != crc_bz(ref[1]):
-            problem = 'both accept, different bytes (spec %s/%s, libbz2 %d/%d)' % (
-                size, crc, len(ref[1]), crc_bz(ref[1]))
-        else:
-            if len(ref[1]) <= 65536:
-                r2 = drv().ask('decode ' + hx(data))
-                if r2 != 'ok ' + hx(ref[1]):
-                    problem = 'decode bytes differ from libbz2'
-                with st.lock:
-                    st.full_bytes += 1
-            with st.lock:
-                st.both_ok += 1
-        if expect == 'err' and not problem:
-            problem = 'expected rejection, both accept'
-    elif r.startswith('err '):
-        why = r[4:]
-        with st.lock:
-            st.reasons[why] = st.reasons.get(why, 0) + 1
-        if ref[0] == 'ok':
-            if why in DOCUMENTED:
-                with st.lock:
-                    st.documented.append((label, why))
+        problem = None
+        if r.startswith('ok '):
+            _, size, crc = r.split()
+            if ref[0] != 'ok':
+                problem = 'Spec accepts (%s bytes) but libbz2 rejects: %s' % (size, ref[1])
+            elif int(size) != len(ref[1]) or int(crc) != crc_bz(ref[1]):
+                problem = 'both accept, different bytes (spec %s/%s, libbz2 %d/%d)' % (
+                    size, crc, len(ref[1]), crc_bz(ref[1]))
             else:
-                problem = 'Spec rejects (%s) but libbz2 accepts %d bytes' % (why, len(ref[1]))
-        else:
-            with st.lock:
+                st.both_ok += 1
+                if len(ref[1]) <= 65536:
+                    second.append(k)
+            if expect == 'err' and not problem:
+                problem = 'expected rejection, both accept'
+        elif r.startswith('err '):
+            why = r[4:]
+            st.reasons[why] = st.reasons.get(why, 0) + 1
+            if ref[0] == 'ok':
+                if why in DOCUMENTED:
+                    st.documented.append((label, why))
+                else:
+                    problem = 'Spec rejects (%s) but libbz2 accepts %d bytes' % (
+                        why, len(ref[1]))
+            else:
                 st.both_rej += 1
-        if expect == 'ok' and not problem:
-            problem = 'expected acceptance, Spec says %s, libbz2 %s' % (why, ref[1])
-    else:
-        problem = 'driver answered: ' + r[:60]
-    if problem:
-        with st.lock:
+            if expect == 'ok' and not problem:
+                problem = 'expected acceptance, Spec says %s, libbz2 %s' % (why, ref[1])
+        else:
+            problem = 'driver answered: ' + r[:60]
+        if problem:
             st.bad.append((label, problem, hx(data) if len(data) <= 4096 else
                            '<%d bytes>' % len(data)))
-    return problem is None
+    # byte-exact comparison through `decode` for the smaller outputs
+    rep2 = ask_all(['decode ' + hx(jobs[k][1]) for k in second])
+    for k, r2 in zip(second, rep2):
+        st.full_bytes += 1
+        if r2 != 'ok ' + hx(refs[k][1]):
+            st.bad.append((jobs[k][0], 'decode bytes differ from libbz2', hx(jobs[k][1])))
 
 
 # ------------------------------------------------------------ input families
@@ -271,14 +280,17 @@ def craft_randomised(rng, rnums, n, level=9):
     """A valid single-block stream with the rand bit set (made from libbz2's
     encoder output by setting the bit and fixing both CRCs).  Returns
     (stream, plaintext)."""
-    for _ in range(50):
-        x = bytearray(rng.choice(b'abcdefgh') for _ in range(n))
-        p = bytearray(x)
-        for j in rand_positions(rnums, n):
-            p[j] ^= 1
-        if no_run4(x) and no_run4(p):
-            break
-    else:
+    # neighbours differ in more than bit 0, so neither the block nor its
+    # de-randomised form contains a run (the first RLE layer is the identity)
+    x = bytearray()
+    while len(x) < n:
+        b = rng.choice(b'abcdefghijklmnop')
+        if not x or (x[-1] >> 1) != (b >> 1):
+            x.append(b)
+    p = bytearray(x)
+    for j in rand_positions(rnums, n):
+        p[j] ^= 1
+    if not (no_run4(x) and no_run4(p)):
         return None
     c = bytearray(bz2.compress(bytes(x), level))
     # stream: BZh9 | magic48 | crc32 | rand1 ...
@@ -303,34 +315,30 @@ def campaign_tables(st):
     lib = ctypes.CDLL(ctypes.util.find_library('bz2'))
     rn = list((ctypes.c_int32 * 512).in_dll(lib, 'BZ2_rNums'))
     ct = list((ctypes.c_uint32 * 256).in_dll(lib, 'BZ2_crc32Table'))
-    d = drv()
-    mine_r = [int(x) for x in d.ask('randtab').split(',')]
-    mine_c = [int(x) for x in d.ask('crctab').split(',')]
+    samples = (b'', b'a', b'123456789', bytes(range(256)))
+    rep = ask_batch(['randtab', 'crctab'] + ['crc32 ' + hx(x) for x in samples])
+    mine_r = [int(x) for x in rep[0].split(',')]
+    mine_c = [int(x) for x in rep[1].split(',')]
     st.n += 2
     if mine_r != rn:
         st.bad.append(('randTable', 'differs from libbz2 BZ2_rNums', ''))
     if mine_c != ct:
         st.bad.append(('crcTable', 'differs from libbz2 BZ2_crc32Table', ''))
     # and the CRC function itself
-    for s in (b'', b'a', b'123456789', bytes(range(256))):
+    for s, r in zip(samples, rep[2:]):
         st.n += 1
-        if int(d.ask('crc32 ' + hx(s))) != crc_bz(s):
+        if int(r) != crc_bz(s):
             st.bad.append(('crc32', 'crc32(%r) differs' % s[:12], ''))
     if crc_bz(b'123456789') != 0xFC891918:
         st.bad.append(('crc_bz', 'python helper wrong', ''))
     return rn
 
 
-def run_pool(jobs, fn, nthreads):
-    with cf.ThreadPoolExecutor(max_workers=nthreads) as ex:
-        list(ex.map(fn, jobs))
-
-
 def main():
-    global DRV
+    global NTHREADS
     tier = os.environ.get('VERIF_TIER', 'quick')
     only = None
-    nthreads = min(8, os.cpu_count() or 1)
+    NTHREADS = min(8, os.cpu_count() or 1)
     av = sys.argv[1:]
     for i, a in enumerate(av):
         if a == '--tier':
@@ -338,12 +346,11 @@ def main():
         if a == '--only':
             only = set(av[i + 1].split(','))
         if a == '-j':
-            nthreads = int(av[i + 1])
+            NTHREADS = int(av[i + 1])
     thorough = tier == 'thorough'
     seed = int(os.environ.get('VERIF_SEED', '1') or 1)
     rng = random.Random(seed * 7919 + 5)
-    DRV = find_driver()
-    if not DRV:
+    if not find_driver():
         print('spec_xcheck: no driver with the Spec commands found '
               '(build with tools/setup.py, or set LBZDRV)')
         sys.exit(2)
@@ -370,7 +377,7 @@ def main():
                        glob.glob(os.path.join(REPO, 'tests', 'suite',
                                               'manual-expand', '*.bz2')))
         jobs = [(os.path.relpath(f, REPO), open(f, 'rb').read()) for f in files]
-        run_pool(jobs, lambda j: compare(st, j[0], j[1]), nthreads)
+        compare_all(st, jobs, per_batch=1)      # some decode to 46 MB
         print('[a] repo test files: %d files, both accept %d, both reject %d, '
               'documented strictness %d, problems %d  (%.0fs)' % (
                   st.n, st.both_ok, st.both_rej, len(st.documented), len(st.bad),
@@ -432,7 +439,7 @@ def main():
                     st.bad.append(('randomised%d' % n,
                                    'crafted stream not decoded as planned by libbz2', ''))
         if want('b'):
-            run_pool(jobs, lambda j: compare(st, j[0], j[1], j[2]), nthreads)
+            compare_all(st, jobs)
             print('[b] generated: %d streams (%d randomised), both accept %d, both reject %d, '
                   'documented %d, problems %d, byte-exact comparisons %d  (%.0fs)' % (
                       st.n, nrand, st.both_ok, st.both_rej, len(st.documented),
@@ -470,15 +477,12 @@ def main():
             for k in cuts:
                 jobs.append(('%s[:%d]' % (name, k), d[:k]))
         rng.shuffle(jobs)
-        run_pool(jobs, lambda j: compare(st, j[0], j[1]), nthreads)
+        compare_all(st, jobs)
         print('[c] mutations: %d base files, %d mutants, both accept %d, both reject %d, '
               'documented %d, problems %d  (%.0fs)' % (
                   len(bases), st.n, st.both_ok, st.both_rej, len(st.documented),
                   len(st.bad), time.time() - t0), flush=True)
         print('    Spec rejection reasons:', json.dumps(st.reasons, sort_keys=True))
-
-    for d in _all_drivers:
-        d.close()
 
     # ------------------------------------------------------------- summary
     nbad = 0
